@@ -167,6 +167,29 @@ pub fn recreate<S: BDDSymbol>(env: &BDDEnv<S>, node: &BDD<S>) -> Rc<BDD<S>> {
     }
 }
 
+/// A structurally identical copy that lives in no environment at all: fresh `Rc` values, the
+/// sharing of the original kept (memo by address, addresses held alive during the copy).
+pub fn plain_copy<S: BDDSymbol>(node: &Rc<BDD<S>>) -> Rc<BDD<S>> {
+    fn go<S: BDDSymbol>(node: &Rc<BDD<S>>, memo: &mut std::collections::BTreeMap<usize, Rc<BDD<S>>>) -> Rc<BDD<S>> {
+        let key = Rc::as_ptr(node) as usize;
+        if let Some(r) = memo.get(&key) {
+            return Rc::clone(r);
+        }
+        let r = match node.as_ref() {
+            BDD::True => Rc::new(BDD::True),
+            BDD::False => Rc::new(BDD::False),
+            BDD::Choice(t, s, f) => {
+                let tt = go(t, memo);
+                let ff = go(f, memo);
+                Rc::new(BDD::Choice(tt, s.clone(), ff))
+            }
+        };
+        memo.insert(key, Rc::clone(&r));
+        r
+    }
+    go(node, &mut std::collections::BTreeMap::new())
+}
+
 /// Number of distinct reachable Choice nodes, by structure.
 pub fn distinct_choice_nodes<S: BDDSymbol>(node: &Rc<BDD<S>>) -> usize {
     fn go<S: BDDSymbol>(node: &Rc<BDD<S>>, seen: &mut Vec<Rc<BDD<S>>>) {
